@@ -288,7 +288,9 @@ def _close(a, b, rtol=1e-9):
         scale = float(np.nanmax(np.abs(y))) if y.size else 0.0
         if not np.isfinite(scale):
             scale = 0.0
-        return bool(np.allclose(x, y, rtol=rtol, atol=1e-11 * max(scale, 1e-300) + 1e-300, equal_nan=True))
+        # floor of the scale: results may cancel to zero while the summed terms (field values of order one times up to
+        # 1/dx**2 = 64) do not; a wrong cache entry produces errors of order one
+        return bool(np.allclose(x, y, rtol=rtol, atol=1e-11 * max(scale, 100.0), equal_nan=True))
     except Exception:  # noqa: BLE001
         return a == b
 
